@@ -28,7 +28,7 @@ RULE = (
     "symbol has more), 30% with one array in two argument positions under different index expressions: sampled in quick, all expressions with <= 3 symbols / <= 2 arguments enumerated in thorough; every "
     "output block checked. part 2: fusion DAGs up to depth 3 over key-function kinds {one-to-one (with coordinate permutation), "
     "several arguments (incl. the same array twice), list of blocks, stream (iterator) of blocks, alternating source, "
-    "concatenating source, multi-output}, fused the way the optimiser does it (can_fuse_multiple_primitive_ops + fuse_multiple, "
+    "concatenating source (as a stream, and as one list with keys from several arrays), multi-output}, fused the way the optimiser does it (can_fuse_multiple_primitive_ops + fuse_multiple, "
     "and fuse for one-to-one chains), compared block by block with the unfused run. Non-trivial = some array has > 1 block "
     "(part 1) / at least one fusion happened (part 2); distinct by hash of the case"
 )
@@ -280,7 +280,7 @@ def enumerate_blockwise_cases():
 # part 2: fusion
 
 
-KINDS = ["one", "one", "multi_arg", "same_twice", "list", "iter", "alternating", "concat", "multi_output"]
+KINDS = ["one", "one", "multi_arg", "same_twice", "list", "iter", "alternating", "concat", "concat_list", "multi_output"]
 
 
 def build_op(node, arrays, nb):
@@ -324,13 +324,14 @@ def build_op(node, arrays, nb):
             return FunctionArgs(ChunkKey(_ns[out_key.coords[0]], out_key.coords[1:]), output_name=out_key.name)
 
         nib = (1,) * len(names)
-    elif kind == "concat":
-        # concat-like: one output column block streams the whole row of blocks of every source
+    elif kind in ("concat", "concat_list"):
+        # concat-like: one output column block streams the whole row of blocks of every source; as a stream, or
+        # (concat_list) as one list whose keys come from several arrays
         out_nb = (in_nb[0], 1)
 
-        def kf(out_key, _ns=tuple(names), _k=in_nb[1]):
+        def kf(out_key, _ns=tuple(names), _k=in_nb[1], _it=(kind == "concat")):
             keys = [ChunkKey(n, (out_key.coords[0], j)) for n in _ns for j in range(_k)]
-            return FunctionArgs(iter(keys), output_name=out_key.name)
+            return FunctionArgs(iter(keys) if _it else keys, output_name=out_key.name)
 
         nib = (in_nb[1],) * len(names)
     elif kind == "multi_output":
@@ -352,7 +353,7 @@ def build_op(node, arrays, nb):
     for n in names:
         if n not in uniq:
             uniq.append(n)
-    if kind in ("multi_arg", "same_twice", "alternating", "concat"):
+    if kind in ("multi_arg", "same_twice", "alternating", "concat", "concat_list"):
         nib = tuple(nib[: len(uniq)]) if len(nib) >= len(uniq) else nib
     op = general_blockwise(
         make_func(f"f{nid}", nout), kf, *[arrays[n] for n in uniq], allowed_mem=10**9, reserved_mem=0,
@@ -382,7 +383,7 @@ def draw_dag(rng):
             ins = [base, base] + ([rng.choice(same)] if rng.random() < 0.4 else [])
         else:
             ins = [base] + [rng.choice(same) for _ in range(rng.randint(1, 2))]
-        if len(base[1]) != 2 and kind in ("list", "iter", "concat"):
+        if len(base[1]) != 2 and kind in ("list", "iter", "concat", "concat_list"):
             kind = "one" if len(ins) == 1 else "multi_arg"
         depth = 1 + max(a[2] for a in ins)
         if depth > 3:
@@ -394,7 +395,7 @@ def draw_dag(rng):
         in_nb = base[1]
         if kind == "one":
             out_nb = in_nb[::-1] if node["perm"] else in_nb
-        elif kind in ("list", "iter", "concat"):
+        elif kind in ("list", "iter", "concat", "concat_list"):
             out_nb = (in_nb[0], 1)
         elif kind == "alternating":
             out_nb = (len(ins),) + tuple(in_nb)
